@@ -141,7 +141,7 @@ def _expand(hist):
     u = Unit()
     wdir = ctx.wdir()
     ds, ms = replay(backend, wdir, hist)
-    self_canon = S.canon_rows(ds)
+    self_canon = S.canon_full(ds)
     succ = []
     # building ops on A and B (frame-checked too)
     blds = [(bid, op) for bid in BUCKETS for op in build_ops(ms[bid], E, K)]
@@ -161,12 +161,12 @@ def _expand(hist):
             case = {"backend": backend, "history": [[b, list(o)] for b, o in hist], "target_bucket": bid, "build_op": list(op), "alphabet": c["Ename"]}
             u.violation(f"{backend}:{op[0]}:own-id:other-bucket-changed", f"{backend} history {list(hist)}: {op} on {bid} changed bucket(s) {chg}: {[(f0[b], f1.get(b)) for b in chg][:1]}", case, size=len(hist) * 100 + len(json.dumps(case)))
         elif not x["exc"]:
-            succ.append((S.canon_rows(ds), tuple(hist) + ((bid, op),)))
+            succ.append((S.canon_full(ds), tuple(hist) + ((bid, op),)))
     ds = None
     for op in probes:
         # a probe that left the whole implementation state untouched (rejected,
         # or a no-op) does not need a fresh replay for the next probe
-        if ds is None or S.canon_rows(ds) != self_canon or raw0 != (S.raw_rows(ds), S.raw_buckets(ds)):
+        if ds is None or S.canon_full(ds) != self_canon or raw0 != (S.raw_rows(ds), S.raw_buckets(ds)):
             ds, mm = replay(backend, wdir, hist)
             raw0 = (S.raw_rows(ds), S.raw_buckets(ds))
             f0 = frame(ds, "A")
